@@ -32,7 +32,7 @@ CFG = dict(
     ],
     min_counts={"any": {
         "grow_double": 10, "grow_exact": 10, "set_at_gap_created": 10, "static_full_push_refused": 10,
-        "static_index_refused": 10, "overflow_index_refused": 10, "erase_middle": 10, "pop_front_n_partial": 10, "pop_front_n_huge_count": 10, "dynamic_list_storage_4GiB_or_more": 50,
+        "static_index_refused": 10, "overflow_index_refused": 10, "erase_middle": 10, "pop_front_n_partial": 10, "pop_front_n_huge_count": 10, "dynamic_list_storage_4GiB_or_more": 50, "erase_near_front_of_2GiB_byte_list": 1,
         "sliced_swap_item_gt_128": 10, "sort_with_ties": 10, "copy_into_smaller_dynamic": 10,
         "copy_into_smaller_static_refused": 10, "copy_into_larger": 10, "shrink_to_fit_reallocated": 10,
         "array_swap_contents": 10, "push_front_shift": 10, "unspecified_gap_element_shifted": 10,
